@@ -130,6 +130,16 @@ func verifHarness_C18_auto() {
 		req.Form = url.Values{"__source": {"form+query"}, "tags": {"a, b"}}
 		verifSetGhost("URL.Query", url.Values{"__source": {"query"}, "tags": {"a, b"}})
 	}
+	if !verifSymbolic() && !hasBody && !emptySrc {
+		// the request may have started life as a POST whose form was parsed (a method-override
+		// handler does that): the parsed form then holds body fields, which a request without
+		// a body must not be bound from
+		pre := &http.Request{Method: "POST", URL: &url.URL{Path: "/", RawQuery: rawQuery}, Header: http.Header{"Content-Type": {"application/x-www-form-urlencoded"}}}
+		pre.Body = &verifBody{strings.NewReader("name=frombody&extra=frombody")}
+		if pre.ParseForm() == nil {
+			req.Form, req.PostForm = pre.Form, pre.PostForm
+		}
+	}
 	var obj verifUser
 	var strictObj verifStrict
 	// an order whose only item breaks the element rules; nothing in an empty source overwrites it
